@@ -99,6 +99,8 @@ type runCtx struct {
 	histN         int
 	histPts       int
 	histAbandoned int
+	nprobe        int
+	probed        map[string]bool
 }
 
 func (rc *runCtx) lexBoard(text string) []int {
@@ -112,6 +114,19 @@ func (rc *runCtx) lexBoard(text string) []int {
 			}
 		}
 		if hit == "" {
+			// a post made by a crash-history probe through the real handler ("From probe (<now>): [[probe]] ...\r"):
+			// the segment up to the next known chunk
+			end := len(text)
+			for _, c := range rc.chunks {
+				if i := strings.Index(text, c); i > 0 && i < end {
+					end = i
+				}
+			}
+			if seg := text[:end]; strings.Contains(seg, probeMarker) && strings.HasSuffix(seg, "\r") {
+				out = append(out, rc.in.id("chunk:"+probeMarker))
+				text = text[end:]
+				continue
+			}
 			s := sha256.Sum256([]byte(text))
 			out = append(out, rc.in.id("junk:"+hex.EncodeToString(s[:8])))
 			break
@@ -143,40 +158,7 @@ func (rc *runCtx) observe(v *VFS) (map[string]any, error) {
 	}
 	l := LoadAll(d, rc.probes)
 	rc.nload++
-	obs := map[string]any{"key": key}
-	ok, e := okRec(l, "board")
-	obs["board"] = map[string]any{"ok": ok, "err": e, "val": rc.lexBoard(l.Board)}
-	cats, arts := [][]any{}, [][]any{}
-	for _, c := range l.Cats {
-		cats = append(cats, []any{c.Path, c.Type})
-	}
-	for _, a := range l.Arts {
-		arts = append(arts, []any{a.Path, a.ID, rc.in.id("art:" + a.Canon)})
-	}
-	ok, e = okRec(l, "news")
-	obs["news"] = map[string]any{"ok": ok, "err": e, "val": map[string]any{"cats": cats, "arts": arts}}
-	accts := [][]any{}
-	logins := make([]string, 0, len(l.Accts))
-	for k := range l.Accts {
-		logins = append(logins, k)
-	}
-	sort.Strings(logins)
-	for _, k := range logins {
-		accts = append(accts, []any{k, rc.in.id("acct:" + l.Accts[k])})
-	}
-	ok, e = okRec(l, "accts")
-	obs["accts"] = map[string]any{"ok": ok, "err": e, "val": accts}
-	bans := [][]any{}
-	ips := make([]string, 0, len(l.Bans))
-	for k := range l.Bans {
-		ips = append(ips, k)
-	}
-	sort.Strings(ips)
-	for _, k := range ips {
-		bans = append(bans, []any{k, rc.in.id("until:" + l.Bans[k])})
-	}
-	ok, e = okRec(l, "bans")
-	obs["bans"] = map[string]any{"ok": ok, "err": e, "val": bans}
+	obs := rc.project(l, key)
 	rc.cache[key] = obs
 	return obs, nil
 }
@@ -255,6 +237,45 @@ func (rc *runCtx) continueFrom(crashed *VFS, evs []Sys, at int, j int, origin ma
 	return nil
 }
 
+// project names what the constructors hold (canonical, comparable values; ids for payloads).
+func (rc *runCtx) project(l Loaded, key string) map[string]any {
+	obs := map[string]any{"key": key}
+	ok, e := okRec(l, "board")
+	obs["board"] = map[string]any{"ok": ok, "err": e, "val": rc.lexBoard(l.Board)}
+	cats, arts := [][]any{}, [][]any{}
+	for _, c := range l.Cats {
+		cats = append(cats, []any{c.Path, c.Type})
+	}
+	for _, a := range l.Arts {
+		arts = append(arts, []any{a.Path, a.ID, rc.in.id("art:" + a.Canon)})
+	}
+	ok, e = okRec(l, "news")
+	obs["news"] = map[string]any{"ok": ok, "err": e, "val": map[string]any{"cats": cats, "arts": arts}}
+	accts := [][]any{}
+	logins := make([]string, 0, len(l.Accts))
+	for k := range l.Accts {
+		logins = append(logins, k)
+	}
+	sort.Strings(logins)
+	for _, k := range logins {
+		accts = append(accts, []any{k, rc.in.id("acct:" + l.Accts[k])})
+	}
+	ok, e = okRec(l, "accts")
+	obs["accts"] = map[string]any{"ok": ok, "err": e, "val": accts}
+	bans := [][]any{}
+	ips := make([]string, 0, len(l.Bans))
+	for k := range l.Bans {
+		ips = append(ips, k)
+	}
+	sort.Strings(ips)
+	for _, k := range ips {
+		bans = append(bans, []any{k, rc.in.id("until:" + l.Bans[k])})
+	}
+	ok, e = okRec(l, "bans")
+	obs["bans"] = map[string]any{"ok": ok, "err": e, "val": bans}
+	return obs
+}
+
 func (rc *runCtx) updRec(u Update) (map[string]any, error) {
 	m := map[string]any{"kind": u.Kind, "store": u.Store}
 	switch u.Kind {
@@ -308,6 +329,7 @@ type KillPoint struct {
 
 type runResult struct {
 	histN, histPts, histAbandoned int
+	nprobe                        int
 	leftover                      int // crash points at which a temp file exists next to the final files
 	events                        []map[string]any
 	kills                         []KillPoint
@@ -350,7 +372,7 @@ func materialiseRun(sc Script, recDir, scratch string) (*runResult, error) {
 		return nil, err
 	}
 	rc := &runCtx{sc: sc, in: &interner{m: map[string]int{}}, scratch: scratch, cache: map[string]map[string]any{},
-		hist: map[string][]map[string]any{}, histSeen: map[string]bool{}}
+		hist: map[string][]map[string]any{}, histSeen: map[string]bool{}, probed: map[string]bool{}}
 	// probes: every address of the script and each of its proper prefixes
 	ps := map[string]bool{}
 	addIP := func(ip string) {
@@ -358,6 +380,7 @@ func materialiseRun(sc Script, recDir, scratch string) (*runResult, error) {
 			ps[ip[:i]] = true
 		}
 	}
+	addIP(probeIP)
 	for ip := range sc.Init.Bans {
 		addIP(ip)
 	}
@@ -387,6 +410,15 @@ func materialiseRun(sc Script, recDir, scratch string) (*runResult, error) {
 	started := false
 	idx := 0
 	var beginEv map[string]any
+	probesAt := func(st *VFS, u int) ([]map[string]any, error) {
+		store := sc.Updates[u].Store
+		k := store + "/" + st.Key()
+		if !cont || rc.probed[k] {
+			return []map[string]any{}, nil
+		}
+		rc.probed[k] = true
+		return rc.probe(st, store, sc.Updates[u])
+	}
 	histOf := func(key string) []map[string]any {
 		if h := rc.hist[key]; h != nil {
 			return h
@@ -472,7 +504,11 @@ func materialiseRun(sc Script, recDir, scratch string) (*runResult, error) {
 				if !ok && len(f) > 2 {
 					errText = strings.TrimPrefix(f[2], "err ")
 				}
-				emit(map[string]any{"op": "end", "run": sc.Run, "u": cur, "ok": ok, "err": errText, "crash": obs,
+				prs, err := probesAt(v, cur)
+				if err != nil {
+					return nil, err
+				}
+				emit(map[string]any{"op": "end", "run": sc.Run, "u": cur, "ok": ok, "err": errText, "crash": obs, "probes": prs,
 					"hist": histOf(fmt.Sprintf("%d/end", cur))})
 				cur = -1
 			default:
@@ -523,6 +559,9 @@ func materialiseRun(sc Script, recDir, scratch string) (*runResult, error) {
 		sev := map[string]any{"op": "sys", "run": sc.Run, "u": cur, "i": idx, "call": e.Call, "mode": mode,
 			"app": hasFlag(e.Flags, "O_APPEND"), "creat": hasFlag(e.Flags, "O_CREAT"), "file": fr, "to": to, "fd": e.FD, "cid": 0, "n": 0, "ok": e.OK(), "errno": e.Errno, "len": e.Len,
 			"crash": obs, "cuts": []any{}, "line": e.Line, "hist": histOf(fmt.Sprintf("%d/%d", cur, idx))}
+		if sev["probes"], err = probesAt(v, cur); err != nil {
+			return nil, err
+		}
 		if cont {
 			if err := rc.continueFrom(v.Clone(), evs, ei, cur, map[string]any{"j": cur, "ci": idx, "cut": -1}, obs); err != nil {
 				return nil, err
@@ -543,7 +582,11 @@ func materialiseRun(sc Script, recDir, scratch string) (*runResult, error) {
 					return nil, err
 				}
 				res.points++
-				cuts = append(cuts, map[string]any{"k": k, "crash": o})
+				prs, err := probesAt(c, cur)
+				if err != nil {
+					return nil, err
+				}
+				cuts = append(cuts, map[string]any{"k": k, "crash": o, "probes": prs})
 				if cont && k > 0 {
 					if err := rc.continueFrom(c, evs, ei, cur, map[string]any{"j": cur, "ci": idx, "cut": k}, o); err != nil {
 						return nil, err
@@ -576,6 +619,7 @@ func materialiseRun(sc Script, recDir, scratch string) (*runResult, error) {
 	}
 	res.loads = rc.nload
 	res.histN, res.histPts, res.histAbandoned = rc.histN, rc.histPts, rc.histAbandoned
+	res.nprobe = rc.nprobe
 	return res, nil
 }
 
@@ -627,7 +671,7 @@ func runMaterialise(args []string) error {
 	}
 	w := bufio.NewWriterSize(f, 1<<20)
 	points, loads, nev, leftover := 0, 0, 0, 0
-	hN, hP, hA := 0, 0, 0
+	hN, hP, hA, nPr := 0, 0, 0, 0
 	calls := map[string]int{}
 	var cands []KillPoint
 	for _, r := range results {
@@ -646,6 +690,7 @@ func runMaterialise(args []string) error {
 		hN += r.histN
 		hP += r.histPts
 		hA += r.histAbandoned
+		nPr += r.nprobe
 		for k, n := range r.calls {
 			calls[k] += n
 		}
@@ -705,7 +750,8 @@ func runMaterialise(args []string) error {
 	}
 	sum, _ := json.Marshal(map[string]any{"runs": len(all), "events": nev, "crash_points": points, "constructor_loads": loads,
 		"calls": calls, "kill_candidates": len(cands), "boundaries_with_leftover_temp_file": leftover,
-		"continued_histories": hN, "continued_history_observations": hP, "continued_histories_abandoned": hA})
+		"continued_histories": hN, "continued_history_observations": hP, "continued_histories_abandoned": hA,
+		"handler_probes_after_restart": nPr})
 	fmt.Println("SUMMARY " + string(sum))
 	return nil
 }
